@@ -43,6 +43,9 @@ Eff(x) == IF "given" \in DOMAIN x THEN (IF x.given THEN x.h ELSE x.th) ELSE x.h
 \* does not enter the result
 LayoutCases == [kind : {"field"}, h : {2, 9}, tas : {200}, f : {"lev", "mixed"}, u0 : {0}, v0 : {0}, hp : 0..2, hla : 0..2, hlo : 0..2, lay : {"asc"}]
 OutsideCases == [kind : {"outside"}, h : {2}, tas : {200}, side : {"north", "south", "east", "west", "above", "below"}]
+\* the data domain is closed: a point exactly on its outermost latitude / longitude line (or corner) is inside - it is
+\* answered with the wind of that line, not refused
+EdgeCases == [kind : {"uniform"}, h : {2, 9}, tas : {200}, u : {15}, v : {-20}, edge : {"north", "south", "east", "west", "north_east", "south_west"}]
 WindOf(x) == IF x.kind = "uniform" THEN <<I(x.u), I(x.v)>>
              ELSE <<Add(I(x.u0), Tri(LAMBDA p, la, lo : U(x.f, p, la, lo), x.hp, x.hla, x.hlo)),
                     Add(I(x.v0), Tri(LAMBDA p, la, lo : V(x.f, p, la, lo), x.hp, x.hla, x.hlo))>>
@@ -52,7 +55,7 @@ Gs2(x) == LET d == Dirs[Eff(x)]  wv == WindOf(x)
           IN Add(Sq(e), Sq(n))
 Out(x) == IF x.kind = "outside" THEN [refused |-> TRUE, gs2 |-> I(0), w2 |-> I(0)]
           ELSE [refused |-> FALSE, gs2 |-> Gs2(x), w2 |-> Add(Sq(WindOf(x)[1]), Sq(WindOf(x)[2]))]
-WSpec == c \in (UniformCases \cup FieldCases \cup OutsideCases \cup HeadingCases \cup LayoutCases) /\ o = <<>> /\ st = "pending"
+WSpec == c \in (UniformCases \cup FieldCases \cup OutsideCases \cup HeadingCases \cup LayoutCases \cup EdgeCases) /\ o = <<>> /\ st = "pending"
          /\ [][st = "pending" /\ st' = "done" /\ o' = Out(c) /\ UNCHANGED c]_vars
 Done == st = "done"
 
